@@ -136,9 +136,9 @@ Proof. vm_compute. repeat split; reflexivity. Qed.
     retires it twice; lower_bound marks one of the two equal cells, the other one is disposed while guarded. *)
 Example C01_inplace_double_retire :
   let tr := fst (Hp.run_case [1;2;3;1;1;50] [[[1];[4;0;4];[7;4];[7;4];[8];[9;0]]] [] 1000) in
-  cnt "retire" 4 tr = 2 /\ (exists d, nth_error tr d = Some (0%nat, ev_dispose 4) /\ slot_at (firstn (S d) tr) 0 0 = 4 /\
-                               slot_at (firstn 8 tr) 0 0 = 4).
-Proof. vm_compute. split; [reflexivity|]. exists 31%nat. repeat split; reflexivity. Qed.
+  cnt "retire" 4 tr = 2 /\ nth_error tr 27 = Some (0%nat, ev_dispose 4) /\
+  slot_at (firstn 28 tr) 0 0 = 4 /\ slot_at (firstn 12 tr) 0 0 = 4.
+Proof. vm_compute. repeat split; reflexivity. Qed.
 
 (** Input the code does not reject: retired capacity R = H*P exactly (basic_smr::basic_smr only replaces R < H*P).
     HP(1,2,2): thread 1 guards object 6, thread 0 guards object 4 and retires 4 and 6: the array is full, the scan
